@@ -49,6 +49,7 @@ def view(index: RepoIndex, func: Func, cross: Tuple[str, ...] = (),
                                 new_only=True)
     if ast.dump(ex) != ast.dump(node):
         node = ast.fix_missing_locations(ex)
+    node = scalar_replace_records(index, unpack_known_tuples(node))
     node = project_agent_fields(index, node)
     out = (node, walk_function(node), inlined)
     _CACHE[key] = out
